@@ -9,14 +9,39 @@ BUDGET_S = {"quick": 150, "thorough": 1500}
 RULE = ("seeded swarm biased to saturated starts, 300 mm storms on low-Ksat layered soils, multi-year droughts, water tables at "
         "0.2-1 m, bunds; bounds are checked per compartment per day against profile arrays copied at initialisation. Non-trivial "
         "run: some compartment reached saturation or air-dry, or water was ponded, on some day; distinct = distinct configuration signatures")
-PROFILE = {"sat_start_p": 0.35, "bunds": 0.4, "field_p": 0.6, "gw": 0.35, "gw_depths": [0.2, 0.3, 0.45, 0.75, 1.0, 1.5, 3.0],
-           "custom_soil_p": 0.35, "event_kinds": ["storm", "storm", "drought", "drought", "heat_wave", "et0_spike", "wet_spell"],
+PROFILE = {"irr_methods": [0, 0, 1, 2, 3, 4, 4, 4, 5], "restrictive_p": 0.1, "sat_start_p": 0.35, "bunds": 0.4, "field_p": 0.6, "gw": 0.35, "gw_depths": [0.2, 0.3, 0.45, 0.75, 1.0, 1.5, 3.0],
+           "custom_soil_p": 0.45, "event_kinds": ["storm", "storm", "drought", "drought", "heat_wave", "et0_spike", "wet_spell"],
            "events_per_year": 3.0, "n_seasons": [1, 2, 3, 4], "off_season_p": 0.6,
            "soils": ["Clay", "Paddy", "SiltClay", "Sand", "LoamySand", "SandyLoam", "Loam", "ac_TunisLocal", "SiltLoam"]}
 
 
+CLAY = lambda rng: ["hyd", None, round(rng.uniform(0.25, 0.33), 3), round(rng.uniform(0.40, 0.52), 3), round(rng.uniform(0.53, 0.58), 3), rng.choice([2, 15, 35, 100]), 100]
+SAND = lambda rng: ["hyd", None, round(rng.uniform(0.04, 0.08), 3), round(rng.uniform(0.11, 0.18), 3), round(rng.uniform(0.30, 0.38), 3), rng.choice([1200, 2200, 3000]), 100]
+LOAM = lambda rng: ["hyd", None, round(rng.uniform(0.12, 0.16), 3), round(rng.uniform(0.28, 0.33), 3), round(rng.uniform(0.44, 0.48), 3), rng.choice([225, 500]), 100]
+
+
 def gen_case(rng, tier, idx):
-    return std_case(rng, PROFILE)
+    case = std_case(rng, PROFILE)
+    if idx % 4 == 2:
+        # strongly contrasting layers (clay/sand/loam in PRNG order) with a shallow first layer, and strategies that write
+        # water contents computed from layer properties (net irrigation with pre-irrigation, threshold irrigation)
+        spec = case["spec"]
+        dz = list(rng.choice([[0.1] * 12, [0.05] * 4 + [0.1] * 10, [0.1, 0.1, 0.1, 0.15, 0.15, 0.2, 0.2, 0.2]]))
+        kinds = rng.sample([CLAY, SAND, LOAM], rng.choice([2, 2, 3]))
+        first = rng.choice([0.1, 0.2, 0.3, 0.4, 0.5])
+        layers = []
+        for i, k in enumerate(kinds):
+            lay = k(rng)
+            lay[1] = first if i == 0 else (rng.choice([0.3, 0.5]) if i < len(kinds) - 1 else 3.0)
+            layers.append(lay)
+        spec["soil"] = {"type": "custom", "kwargs": {"dz": dz, "cn": rng.choice([46, 61, 77]), "rew": 9}, "layers": layers}
+        spec["iwc"] = {"wc_type": "Pct", "method": "Layer", "depth_layer": list(range(1, len(layers) + 1)),
+                       "value": [rng.choice([10, 40, 70, 100]) for _ in layers]}
+        m = rng.choice([4, 4, 4, 1, 0])
+        spec["irr"] = {"method": m, "kwargs": ({"NetIrrSMT": rng.choice([50, 70, 90, 100])} if m == 4 else ({"SMT": [rng.choice([50, 70, 90])] * 4} if m == 1 else {})), "schedule": None}
+        spec["gw"] = None
+        case["controller"] = None
+    return case
 
 
 def _nontrivial(res):
